@@ -390,6 +390,11 @@ impl Run {
                     extra.push("C07");
                     extra.push("C01");
                 }
+                if real.children != want.children {
+                    // the child index is read through get_version_by_parent, the look-up GetChildVersion answers from: a link that
+                    // is missing or extra there is a wrong found / not-found / gone answer for that parent
+                    extra.push("C08");
+                }
                 let tags: &[&'static str] = if i != actor {
                     &["C09"]
                 } else if !mutating {
